@@ -318,3 +318,106 @@ func (w *World) mayCarryRef(t types.Type, depth int) bool {
 	}
 	return true // pointers, slices, maps, channels, functions, interfaces, type parameters
 }
+
+// mutableFields: struct fields (Named.field) of the loaded module that some function writes outside the construction
+// of the object: a store to the field, or an update / delete / element store through the map or slice stored in it.
+func (w *World) mutableFields(prog []*ssa.Function) map[string]string {
+	out := map[string]string{}
+	fieldName := func(fa *ssa.FieldAddr) string {
+		nt, ok := derefType(fa.X.Type()).(*types.Named)
+		if !ok {
+			return ""
+		}
+		st, ok := nt.Underlying().(*types.Struct)
+		if !ok || nt.Obj().Pkg() == nil {
+			return ""
+		}
+		return nt.Obj().Pkg().Path() + "." + nt.Obj().Name() + "." + st.Field(fa.Field).Name()
+	}
+	for _, fn := range prog {
+		for _, b := range fn.Blocks {
+			for _, in := range b.Instrs {
+				fa, ok := in.(*ssa.FieldAddr)
+				if !ok {
+					continue
+				}
+				name := fieldName(fa)
+				if name == "" || out[name] != "" {
+					continue
+				}
+				if _, local := rootAlloc(fa.X); local {
+					continue // the object is being built by this function
+				}
+				refs := fa.Referrers()
+				if refs == nil {
+					continue
+				}
+				for _, r := range *refs {
+					switch x := r.(type) {
+					case *ssa.Store:
+						if x.Addr == fa {
+							out[name] = shortFuncName(fn)
+						}
+					case *ssa.UnOp:
+						if x.Op != token.MUL || x.Referrers() == nil {
+							continue
+						}
+						for _, r2 := range *x.Referrers() {
+							switch y := r2.(type) {
+							case *ssa.MapUpdate:
+								if y.Map == x {
+									out[name] = shortFuncName(fn)
+								}
+							case *ssa.Call:
+								if bi, ok := y.Call.Value.(*ssa.Builtin); ok && bi.Name() == "delete" && len(y.Call.Args) > 0 && y.Call.Args[0] == x {
+									out[name] = shortFuncName(fn)
+								}
+							case *ssa.IndexAddr:
+								if y.X == x && y.Referrers() != nil {
+									for _, r3 := range *y.Referrers() {
+										if st, ok := r3.(*ssa.Store); ok && st.Addr == y {
+											out[name] = shortFuncName(fn)
+										}
+									}
+								}
+							}
+						}
+					}
+				}
+			}
+		}
+	}
+	return out
+}
+
+// concurrentReads: the fields read by fn that are written somewhere (mutable) and not guarded by a mutex.
+func (w *World) concurrentReads(fn *ssa.Function, mutable map[string]string) map[string]string {
+	out := map[string]string{}
+	for _, b := range fn.Blocks {
+		for _, in := range b.Instrs {
+			fa, ok := in.(*ssa.FieldAddr)
+			if !ok {
+				continue
+			}
+			nt, ok := derefType(fa.X.Type()).(*types.Named)
+			if !ok {
+				continue
+			}
+			st, ok := nt.Underlying().(*types.Struct)
+			if !ok || nt.Obj().Pkg() == nil {
+				continue
+			}
+			if _, local := rootAlloc(fa.X); local {
+				continue
+			}
+			if _, _, g := w.guardedField(nt, fa.Field); g {
+				continue
+			}
+			name := nt.Obj().Pkg().Path() + "." + nt.Obj().Name() + "." + st.Field(fa.Field).Name()
+			if by := mutable[name]; by != "" {
+				out[nt.Obj().Name()+"."+st.Field(fa.Field).Name()] = by
+			}
+		}
+	}
+	return out
+}
